@@ -48,6 +48,36 @@ class DeliveryMonitor(Monitor):
 
     def on_update_start(self, mid, j, mb):
         self.seq.append((mid, mb.publish_time_epoch, j))
+        # the book that is delivered IS the update in the data: ladders, traded volume and status of every active runner
+        # equal the generator's state at that update (also for the first book after a stretch removed by the filters)
+        if j is None or mb.status == "CLOSED":
+            return
+        from .. import marketgen
+
+        market = self.run.markets_by_id[mid]
+        u = market["updates"][j]
+        by = {(r.selection_id, r.handicap or 0): r for r in mb.runners}
+        for s in market["runners"]:
+            rs = u["r"][str(s)]
+            if rs["st"] != "ACTIVE":
+                continue
+            sid, hc = marketgen.wire_key(market, s)
+            r = by.get((sid, hc or 0))
+            if r is None:
+                self.violate(self.P, "C14.exactly-once", "delivered-book-lacks-an-active-runner", market=mid, update=j, runner=[sid, hc])
+                continue
+            for key, attr in (("atb", "available_to_back"), ("atl", "available_to_lay"), ("trd", "traded_volume")):
+                got = [(x["price"], x["size"]) for x in getattr(r.ex, attr)]
+                want = {p: c for p, c in rs[key]}
+                bad = dict(got) != want or len(got) != len(want)
+                if not bad and key == "atb" and got and got[0][0] != max(want):
+                    bad = True
+                if not bad and key == "atl" and got and got[0][0] != min(want):
+                    bad = True
+                if bad:
+                    self.violate(self.P, "C14.exactly-once", "delivered-book-differs-from-the-update-in-the-data:%s" % key, market=mid, update=j, runner=[sid, hc], delivered=got[:6], data=sorted(want.items())[:6], listener_kwargs=(self.run.scenario["strategies"][0].get("listener_kwargs") or {}))
+                    return
+        self.res.probes["c14.delivered_books_compared_with_data"] += 1
 
     def on_strategy_call(self, strategy, market, kind):
         un = to_ms(datetime.datetime.utcnow())
